@@ -315,6 +315,11 @@ impl BuildJob<'_> {
         }
         let ps = ptx.commit().map_err(RedoError::opaque_error)?;
         logs::meta("do", state::target_relpath(ps.env(), &t)?.as_str(), None);
+        #[cfg(feature = "verif")]
+        {
+            crate::verif::event("job_prepared", &format!("t={}", &t));
+            crate::verif::delay("before_job_start");
+        }
 
         // Wrap out_file in a Cell, since we drop it in the subprocess.
         // Rust can't tell that the closure is not called in the parent process.
